@@ -49,6 +49,10 @@ func init() {
 		Level:       "held on every executed case: complete enumeration of all strings of up to 4 (thorough 5) symbols over {a,B,é,',*,space} x offsets/lengths/indices/sizes in len±3 x 7 tokens, all strings up to length 6 (7) over the token characters for Unwrap, all 1-3 word phrases over an 8-word vocabulary x 8 separator runs for the case styles, plus seeded random longer inputs incl. multi-byte runes and NUL; compared with byte-level references and round-trip identities",
 		Technique:   "differential monitor against byte-level references + round-trip identities",
 		Assumptions: []string{"the references are trusted (Substr: out-of-range selection = empty string, as the property restates the PHP rule)", "not asserted: Pad* with an empty token, case mapping/WrapAllRune on invalid UTF-8, the case styles outside ASCII alphanumeric words joined by runs of ' -_&'"}})
+	reg(&propCfg{ID: "C16", Pkg: "./props/c16", Variants: simple(false),
+		Level:       "held on every executed case: every adapter (one per exported slice/map helper, cross-checked against the package's exported functions) x 200 (thorough 2000) generated argument tuples x spare capacity {0,1,8}, and every ordered pair of non-in-place adapters sharing the first argument x 20 (200) tuples; arguments compared with shadow copies incl. sentinel-filled capacity regions, earlier results re-read after later calls",
+		Technique:   "shadow-copy monitor with capacity-region sentinels; result re-read after later calls",
+		Assumptions: []string{"helpers whose arguments are strings/scalars only cannot disturb them (Go strings are immutable) and are listed, not executed", "views (Drop, Chunk) may alias their argument; only writes are judged", "the documented in-place helpers are Reverse, Reject, Omit, OmitBy, heap.FromSlice, heap.Sort"}})
 	reg(&propCfg{ID: "C04", Pkg: "./props/c04", Variants: simple(false),
 		Technique:   "reference-model trace monitor (map model) over systematic small-scope sweep + seeded random sequences",
 		Assumptions: []string{"the map model and the generators are trusted", "single goroutine; concurrency is C01/C02"}})
